@@ -83,6 +83,18 @@ CHECKS = {
    design_ref="DESIGN.md section 3, C03",
    note="Nominal bounds <= 6 s, hang threshold 24 s; a crash point that is never reached makes the case inconclusive.",
    technique="runtime monitoring: crash-point injection via hook points and signals, call/return log judged against a needs-the-plugin table"),
+ "C11": dict(
+   category="exploration",
+   text="Runtime monitor: a real serving plugin (net/rpc, gRPC, gRPC+mux) writes self-describing frames ([stream tag][seq][len][PRNG payload]) to its stdout/stderr according to seeded plans (sizes around the 1 KiB / 4 KiB boundaries up to 1 MiB, two writer goroutines, optional RPC traffic, data written before the host attaches, more than pipe capacity); the host regenerates the expected streams and checks every 20 ms that what arrived on SyncStdout/SyncStderr is a prefix of them (no duplication, reordering, corruption, crossing) and, after the acknowledged last write, that everything arrives (bounded progress).",
+   design_ref="DESIGN.md section 3, C11",
+   note="Loss is judged 15 s after the plugin acknowledged its last write with the connection still answering Ping.",
+   technique="runtime monitoring: prefix-of-regenerated-stream oracle over self-describing frames, race detector on both processes"),
+ "C12": dict(
+   category="exploration",
+   text="Runtime monitor with hostile peers: for every connection path (main listeners of all three protocols incl. a race for the multiplexed listener's single session, plugin-side and host-side brokered gRPC listeners) intruders with five credential classes speak the real wire protocol and any answered RPC is a violation, while a positive control by the legitimate peer must succeed in the same case; impostor plugins announce one certificate and serve another (or plaintext) with the real protocol and any completed host RPC is a violation.",
+   design_ref="DESIGN.md section 3, C12",
+   note="Samples credential classes with fresh keys per case; cases without a successful positive control are inconclusive.",
+   technique="runtime monitoring: intruder/impostor probes with positive controls against real AutoMTLS plugin processes"),
 }
 PENDING_REASON = "check not built yet in this revision; it is planned as a runtime monitor (see DESIGN.md section 3) and will move to 'checks' when it exists"
 
